@@ -251,6 +251,7 @@ def check_all(ctx, module_suffixes=None, funcs=None, rules=('DEADPARAM', 'FORWAR
     out['memo'] = memo.check(ctx, funcs)
     out['validate'] = validated_on_every_path(ctx, funcs)
     out['prefilters'] = common.prefilters(ctx, funcs)
+    out['aliases'] = common.alias_grown_in_place(ctx, funcs)
     ctx.ok('FORWARD', f"option forwarding in {len(funcs)} functions",
            f"{out.get('params', 0)} parameters examined for use, {out.get('forwarded', 0)} arguments handed "
            f"down under a parameter name, {out.get('defaults', 0)} default pairs compared, "
